@@ -100,6 +100,30 @@ Definition add_imp (subtract : bool) (d x y : obj) : prog outcome :=
      | Panic w => Ret (OPanic w) | OutOfFuel => Ret OFuel
      end).
 
+(* Context.Mul: the product is written into d.Coeff first, then d.Negative and d.Form; the operand EXPONENTS are
+   read afterwards (d.Exponent has not been written yet, so d == x is harmless) and handed to d.setExponent, which
+   works on d alone - and, when it hits the package limits, returns before writing d.Exponent *)
+Definition mul_imp (d x y : obj) : prog outcome :=
+  fx <- rd (x, FForm) ;; fy <- rd (y, FForm) ;;
+  if is_nan_z fx || is_nan_z fy then set_as_nan_imp d x (Some y) else
+  xn <- rd (x, FNeg) ;; yn <- rd (y, FNeg) ;;
+  let ng := xorb (negb (xn =? 0)) (negb (yn =? 0)) in
+  if (fx =? 1) || (fy =? 1) then
+    cx <- rd (x, FCoeff) ;; cy <- rd (y, FCoeff) ;;          (* x.IsZero() || y.IsZero() *)
+    if ((fx =? 0) && (cx =? 0)) || ((fy =? 0) && (cy =? 0))
+    then const_imp d d_nan ;;; Ret (OFlags fInvalidOperation)
+    else const_imp d d_inf ;;; wr (d, FNeg) (b2z ng) ;;; Ret (OFlags c0)
+  else
+  cx <- rd (x, FCoeff) ;; cy <- rd (y, FCoeff) ;;
+  wr (d, FCoeff) (cx * cy) ;;; wr (d, FNeg) (b2z ng) ;;; wr (d, FForm) 0 ;;;
+  ex <- rd (x, FExp) ;; ey <- rd (y, FExp) ;;
+  v <- rd_dec d ;;
+  match set_exponent est c v unknownNumDigits c0 [ex; ey] with
+  | Ok (v1, f1) => wr_dec d v1 ;;; round_imp d f1
+  | Panic w => Ret (OPanic w)
+  | OutOfFuel => Ret OFuel
+  end.
+
 (* Context.Abs / Neg / Round *)
 Definition ctx_abs_imp (d x : obj) : prog outcome :=
   fx <- rd (x, FForm) ;;
